@@ -299,6 +299,16 @@ def verify_instance(inst_, idx):
             for x in range(len(vids)):
                 for y in range(x + 1, len(vids)):
                     I.assume(z3.Not(z3.And(AT.eq(f"a{k}", vids[x]), AT.eq(f"a{k}", vids[y]))))
+        # ... and never a literal of another builtin family (an int is never == 'a'; 1 == True == 1.0 stay in one family)
+        fam = lambda v: "num" if isinstance(v, (bool, int, float)) else type(v).__name__
+        cfam = {"int": "num", "bool": "num", "float": "num", "str": "str", "bytes": "bytes", "tuple": "tuple", "list": "list", "NoneType": "NoneType"}
+        cnames = sorted({n_ for d in decl for t in d for n_ in _static_names(t)} | set(inst_["probe"]))
+        for k in range(nargs):
+            for v in vids:
+                if v < len(VALUES) and not (isinstance(VALUES[v], tuple) and VALUES[v][:1] == ("unparsed",)):
+                    for cn in cnames:
+                        if cn in cfam and cfam[cn] != fam(VALUES[v]):
+                            I.assume(z3.Not(z3.And(AT.eq(f"a{k}", v), AT.isinst(f"a{k}", cn))))
         env = Env(None)
         try:
             r = I.exec_function(fn, "emitted", "emitted:__DEPENDENT_DISPATCH__", list(args), {}, env)
@@ -337,6 +347,17 @@ def verify_instance(inst_, idx):
     for ob in I.obligations:
         obs.append(dict(name=ob.name, status=ob.status, time=round(ob.time, 4), model=ob.model, note=ob.note, path="".join(map(str, ob.path)), goal=str(ob.goal)[:200]))
     return name, obs, res
+
+
+def _static_names(t):
+    if t["cls"] == "static":
+        return [t["name"]]
+    out = []
+    for m in t.get("members", []):
+        out += _static_names(m)
+    if t.get("bound"):
+        out += _static_names(t["bound"])
+    return out
 
 
 def _values(t):
@@ -380,7 +401,7 @@ def dep_task(tier, native):
             res.obligations.extend(obs)
         res.paths = paths
         res.meta = {"instances": n, "cover": ["n/a"], "bound": "method-set family of native/gen_dependent.py"}
-        res.trusted = ["compile/exec of the emitted source text produce a function that behaves as the text says", "== between an argument and distinct literal values holds for at most one of them", "user predicates are pure"]
+        res.trusted = ["compile/exec of the emitted source text produce a function that behaves as the text says", "== between an argument and distinct literal values holds for at most one of them", "an argument of one builtin family (numbers / str / bytes / tuple / list) is never == a literal of another family", "user predicates are pure"]
         res.wall_s = round(time.time() - t0, 3)
         return res
 
